@@ -183,6 +183,7 @@ def r2(cx):
             cx.check(cond == frozenset({"lt", "eq"}), "payload is sliced only when length <= bytes remaining", "length-gate", cmp_.where(),
                      "the reader slices `length` bytes when length %s remaining: a damaged length field indexes past the buffer (panic)" % rel_str(cond))
     cx.floor("length-vs-remaining comparisons controlling the payload", m, 1)
+    rule_eof_only_at_block_boundary(cx)
     # result of validate_record_type and from_u8 are propagated
     from ..core import result_fate
     for c in val + sites(cx, b, "wal::RecordType::from_u8"):
